@@ -221,7 +221,11 @@ class C07(Check):
             yield ("sp", tuple(t.split()))
 
     LITS = ("2", "10", "007", "2.5", "2.", ".5", "0.5", "1e3", "1E3", "1e-3", "2.5e+2", "1.e2",
-            "True", "False", "0", "1j", "2.5j")
+            "True", "False", "0", "0.0", "1.0", "1", "1j", "2.5j",
+            # exponent literals whose mantissa is not exact in binary, extreme exponents
+            "1.1e5", "3e-1", "1.5e-1", "6.02e23", "5e-324", "1e22", "1e23", "1.7976931348623157e308",
+            "2.2250738585072014e-308", "0.30000000000000004", "123456789.12345678", "1e-7",
+            "9007199254740993.0", "1e400")
 
     # identifiers that begin with (or contain) a keyword or literal spelling, differ in case only,
     # carry digits / underscores, or look like an exponent or imaginary suffix
